@@ -18,7 +18,7 @@
   the oracles (named in the evidence; not proof yet).
 -/
 import CxxModel.Theorems.LexPartition
-import CxxModel.Theorems.LexLines
+import CxxModel.GenCfg
 import CxxModel.Tables
 namespace Cxx
 
@@ -61,15 +61,12 @@ theorem C08_name_rule :
 theorem C08_matcher_is_paths (r : Re) (s : Str) : rmatchK r s = (paths r s).head? := rmatchK_eq_rmatch r s
 
 
-/-- the lexer configuration regenerated from `PlyLexer` -/
-def genCfg : LexCfg := { rules := Gen.rules, literals := Gen.literals, ignore := Gen.ignore, keywords := Gen.keywords }
-
-theorem C08_rules_count_lines : LineCountOK genCfg = true := by decide +kernel
+theorem C08_rules_count_lines : LineCountOK genLexCfg = true := gen_line_count_ok
 
 theorem C08_lineno (fuel : Nat) (st : LexState) (t : RawTok) (st' : LexState)
-    (h : plyToken genCfg fuel st = .tok t st') :
+    (h : plyToken genLexCfg fuel st = .tok t st') :
     ∃ gap, st.rest = gap ++ t.value ++ st'.rest ∧ t.lineno = st.lineno + countNl gap ∧
       st'.lineno = st.lineno + countNl gap + countNl t.value :=
-  plyToken_lineno genCfg C08_rules_count_lines fuel st t st' h
+  plyToken_lineno genLexCfg C08_rules_count_lines fuel st t st' h
 
 end Cxx
